@@ -122,7 +122,8 @@ Proof.
   unfold validity.
   destruct (m_tc m && negb (c_trunc cfg)).
   - intros [= <-]. split; [intros; lia|now left].
-  - destruct (class_cap cfg m) as [cap| | |] eqn:C; cbn [bind]; try discriminate.
+  - destruct (m_broken m); [discriminate|].
+    destruct (class_cap cfg m) as [cap| | |] eqn:C; cbn [bind]; try discriminate.
     intros [= <-].
     pose proof (ttl_min_opt_le_acc (m_ar m) (ttl_min (ttl_min cap (m_an m)) (m_ns m))) as L3.
     pose proof (ttl_min_le_acc (m_ns m) (ttl_min cap (m_an m))) as L2.
@@ -151,89 +152,109 @@ Proof.
 Qed.
 
 (* ---------- ageing -------------------------------------------------------------------- *)
-Definition age (a : N) (r : rr) : rr := mkRR (r_type r) (r_class r) (r_ttl r - a) (r_id r).
+Definition age (a : N) (r : rr) : rr := mkRR (r_type r) (r_class r) (r_ttl r - a) (r_id r) false.
 Definition age_opt (a : N) (r : rr) : rr := if negb (r_type r =? rtype_opt) then age a r else r.
 
-Lemma dec_list_ok a l l' : dec_list a l = Ok l' ->
-  l' = map (age a) l /\ Forall (fun r => a <= r_ttl r) l.
+(* with the TTL bound, ageing a section either succeeds or hits an unparsable record *)
+Lemma dec_list_cases a l : Forall (fun r => a <= r_ttl r) l ->
+  (dec_list a l = Ok (map (age a) l) /\ existsb r_bad l = false) \/
+  (dec_list a l = Err parse_error /\ existsb r_bad l = true).
 Proof.
-  revert l'; induction l as [|r t IH]; intros l'; cbn [dec_list].
-  - intros [= <-]; split; constructor.
-  - unfold dec_rr at 1. destruct (N.ltb_spec (r_ttl r) a) as [Hlt|Hge]; cbn [bind]; [discriminate|].
-    destruct (dec_list a t) as [t'| | |]; cbn [bind]; try discriminate.
-    intros [= <-]. destruct (IH _ eq_refl) as [-> F].
-    split; [reflexivity|constructor; [lia|exact F]].
+  induction 1 as [|r t Hr _ IH]; cbn [dec_list map existsb]; [left; auto|].
+  unfold dec_rr. destruct (r_bad r) eqn:B; cbn [bind orb]; [right; auto|].
+  destruct (N.ltb_spec (r_ttl r) a); [lia|]. cbn [bind].
+  destruct IH as [[-> E]|[-> E]]; cbn [bind]; [left|right]; auto.
 Qed.
 
-Lemma dec_list_total a l : Forall (fun r => a <= r_ttl r) l -> dec_list a l = Ok (map (age a) l).
+Lemma dec_list_ok a l l' : dec_list a l = Ok l' ->
+  l' = map (age a) l /\ Forall (fun r => a <= r_ttl r) l /\ existsb r_bad l = false.
 Proof.
-  induction 1 as [|r t Hr _ IH]; cbn [dec_list map]; [reflexivity|].
-  unfold dec_rr at 1. destruct (N.ltb_spec (r_ttl r) a); [lia|].
-  cbn [bind]. rewrite IH. reflexivity.
+  revert l'; induction l as [|r t IH]; intros l'; cbn [dec_list].
+  - intros [= <-]; repeat split; constructor.
+  - unfold dec_rr at 1. destruct (r_bad r) eqn:B; cbn [bind]; [discriminate|].
+    destruct (N.ltb_spec (r_ttl r) a) as [Hlt|Hge]; cbn [bind]; [discriminate|].
+    destruct (dec_list a t) as [t'| | |]; cbn [bind]; try discriminate.
+    intros [= <-]. destruct (IH _ eq_refl) as (-> & F & E).
+    cbn [existsb]. rewrite B, E. repeat split; [constructor; [lia|exact F]].
+Qed.
+
+Definition opt_ok (a : N) (r : rr) : Prop := (r_type r =? rtype_opt) = false -> a <= r_ttl r.
+
+Lemma dec_list_opt_cases a l : Forall (opt_ok a) l ->
+  (dec_list_opt a l = Ok (map (age_opt a) l) /\ existsb r_bad l = false) \/
+  (dec_list_opt a l = Err parse_error /\ existsb r_bad l = true).
+Proof.
+  induction 1 as [|r t Hr _ IH]; cbn [dec_list_opt map existsb]; [left; auto|].
+  unfold age_opt at 1. unfold opt_ok in Hr.
+  destruct (r_type r =? rtype_opt) eqn:E; cbn [negb].
+  - destruct (r_bad r) eqn:B; cbn [bind orb]; [right; auto|].
+    destruct IH as [[-> E']|[-> E']]; cbn [bind]; [left|right]; auto.
+  - unfold dec_rr. destruct (r_bad r) eqn:B; cbn [bind orb]; [right; auto|].
+    destruct (N.ltb_spec (r_ttl r) a); [specialize (Hr eq_refl); lia|]. cbn [bind].
+    destruct IH as [[-> E']|[-> E']]; cbn [bind]; [left|right]; auto.
 Qed.
 
 Lemma dec_list_opt_ok a l l' : dec_list_opt a l = Ok l' ->
-  l' = map (age_opt a) l /\ Forall (fun r => (r_type r =? rtype_opt) = false -> a <= r_ttl r) l.
+  l' = map (age_opt a) l /\ Forall (opt_ok a) l /\ existsb r_bad l = false.
 Proof.
   revert l'; induction l as [|r t IH]; intros l'; cbn [dec_list_opt].
-  - intros [= <-]; split; constructor.
+  - intros [= <-]; repeat split; constructor.
   - destruct (r_type r =? rtype_opt) eqn:E; cbn [negb].
-    + cbn [bind]. destruct (dec_list_opt a t) as [t'| | |]; cbn [bind]; try discriminate.
-      intros [= <-]. destruct (IH _ eq_refl) as [-> F].
-      split; [cbn [map]; f_equal; unfold age_opt; rewrite E; reflexivity|constructor; [intros; congruence|exact F]].
-    + unfold dec_rr at 1. destruct (N.ltb_spec (r_ttl r) a) as [Hlt|Hge]; cbn [bind]; [discriminate|].
+    + destruct (r_bad r) eqn:B; cbn [bind]; [discriminate|].
       destruct (dec_list_opt a t) as [t'| | |]; cbn [bind]; try discriminate.
-      intros [= <-]. destruct (IH _ eq_refl) as [-> F].
-      split; [cbn [map]; f_equal; unfold age_opt; rewrite E; reflexivity|constructor; [intros; lia|exact F]].
-Qed.
-
-Lemma dec_list_opt_total a l :
-  Forall (fun r => (r_type r =? rtype_opt) = false -> a <= r_ttl r) l ->
-  dec_list_opt a l = Ok (map (age_opt a) l).
-Proof.
-  induction 1 as [|r t Hr _ IH]; cbn [dec_list_opt map]; [reflexivity|].
-  unfold age_opt at 1.
-  destruct (r_type r =? rtype_opt) eqn:E; cbn [negb bind].
-  - rewrite IH; reflexivity.
-  - unfold dec_rr. destruct (N.ltb_spec (r_ttl r) a); [specialize (Hr eq_refl); lia|].
-    cbn [bind]. rewrite IH; reflexivity.
+      intros [= <-]. destruct (IH _ eq_refl) as (-> & F & E').
+      cbn [existsb map]. rewrite B, E'. repeat split.
+      * f_equal; unfold age_opt; rewrite E; reflexivity.
+      * constructor; [unfold opt_ok; intros; congruence|exact F].
+    + unfold dec_rr at 1. destruct (r_bad r) eqn:B; cbn [bind]; [discriminate|].
+      destruct (N.ltb_spec (r_ttl r) a) as [Hlt|Hge]; cbn [bind]; [discriminate|].
+      destruct (dec_list_opt a t) as [t'| | |]; cbn [bind]; try discriminate.
+      intros [= <-]. destruct (IH _ eq_refl) as (-> & F & E').
+      cbn [existsb map]. rewrite B, E'. repeat split.
+      * f_equal; unfold age_opt; rewrite E; reflexivity.
+      * constructor; [unfold opt_ok; intros; lia|exact F].
 Qed.
 
 Definition aged_msg (a : N) (m : msg) : msg :=
-  mkMsg (m_rcode m) (m_aa m) (m_tc m) (m_rd m) (m_ad m) (m_q m)
-        (map (age a) (m_an m)) (map (age a) (m_ns m)) (map (age_opt a) (m_ar m)).
+  mkMsg (m_id m) (m_rcode m) (m_aa m) (m_tc m) (m_rd m) (m_ad m) (m_q m)
+        (map (age a) (m_an m)) (map (age a) (m_ns m)) (map (age_opt a) (m_ar m)) (m_broken m).
 Definition aged (a : N) (r : resp) : resp :=
   match r with RMsg m => RMsg (aged_msg a m) | RErr e => RErr e end.
 
+Definition resp_has_bad (r : resp) : bool := match r with RMsg m => has_bad m | RErr _ => false end.
+
 Lemma decrement_ok r a r' : decrement_ttl r a = Ok r' ->
-  r' = aged a r /\
+  r' = aged a r /\ resp_has_bad r = false /\
   (forall m, r = RMsg m -> forall x, counted m x -> a <= r_ttl x).
 Proof.
-  destruct r as [m|e]; cbn [decrement_ttl aged].
+  destruct r as [m|e]; cbn [decrement_ttl aged resp_has_bad].
   - destruct (dec_list a (m_an m)) as [an| | |] eqn:E1; cbn [bind]; try discriminate.
     destruct (dec_list a (m_ns m)) as [ns| | |] eqn:E2; cbn [bind]; try discriminate.
     destruct (dec_list_opt a (m_ar m)) as [ar| | |] eqn:E3; cbn [bind]; try discriminate.
     intros [= <-].
     apply dec_list_ok in E1, E2. apply dec_list_opt_ok in E3.
-    destruct E1 as [-> F1], E2 as [-> F2], E3 as [-> F3].
-    split; [reflexivity|].
+    destruct E1 as (-> & F1 & B1), E2 as (-> & F2 & B2), E3 as (-> & F3 & B3).
+    split; [reflexivity|]. split; [unfold has_bad; rewrite B1, B2, B3; reflexivity|].
     intros m' [= <-] x [H|[H|[H Ho]]].
     + rewrite Forall_forall in F1; auto.
     + rewrite Forall_forall in F2; auto.
-    + rewrite Forall_forall in F3; auto.
-  - intros [= <-]; split; [reflexivity|discriminate].
+    + rewrite Forall_forall in F3; apply F3; auto.
+  - intros [= <-]; repeat split; discriminate.
 Qed.
 
-Lemma decrement_total r a :
+Lemma decrement_cases r a :
   (forall m, r = RMsg m -> forall x, counted m x -> a <= r_ttl x) ->
-  decrement_ttl r a = Ok (aged a r).
+  (decrement_ttl r a = Ok (aged a r) /\ resp_has_bad r = false) \/
+  (decrement_ttl r a = Err parse_error /\ resp_has_bad r = true).
 Proof.
-  destruct r as [m|e]; cbn [decrement_ttl aged]; [|reflexivity].
-  intros H. specialize (H m eq_refl).
-  rewrite dec_list_total, dec_list_total, dec_list_opt_total; [reflexivity| | |].
-  - apply Forall_forall; intros x Hx Ho; apply H; right; right; tauto.
-  - apply Forall_forall; intros x Hx; apply H; right; left; exact Hx.
-  - apply Forall_forall; intros x Hx; apply H; left; exact Hx.
+  destruct r as [m|e]; cbn [decrement_ttl aged resp_has_bad]; [|left; auto].
+  intros H. specialize (H m eq_refl). unfold has_bad.
+  assert (F1 : Forall (fun r => a <= r_ttl r) (m_an m)) by (apply Forall_forall; intros x Hx; apply H; left; exact Hx).
+  assert (F2 : Forall (fun r => a <= r_ttl r) (m_ns m)) by (apply Forall_forall; intros x Hx; apply H; right; left; exact Hx).
+  assert (F3 : Forall (opt_ok a) (m_ar m)) by (apply Forall_forall; intros x Hx Ho; apply H; right; right; tauto).
+  destruct (dec_list_cases a _ F1) as [[-> ->]|[-> ->]]; cbn [bind orb]; [|right; auto].
+  destruct (dec_list_cases a _ F2) as [[-> ->]|[-> ->]]; cbn [bind orb]; [|right; auto].
+  destruct (dec_list_opt_cases a _ F3) as [[-> ->]|[-> ->]]; cbn [bind orb]; [left|right]; auto.
 Qed.
 
 (* ---------- expiry -------------------------------------------------------------------------- *)
